@@ -160,3 +160,33 @@ def grep_forbidden():
                 if pat.search(s):
                     bad.append(f"{os.path.relpath(os.path.join(root, f), LEAN_DIR)}:{i+1}: {line.strip()[:120]}")
     return bad
+
+
+# ---------------------------------------------------------------- watchdog
+
+class Hang(Exception):
+    """the implementation did not return within the time limit (treated as a failure of the call)"""
+
+
+class time_limit:
+    """with time_limit(2.0): ...  -- raises Hang inside the block if it runs longer (main thread of a process only)"""
+
+    def __init__(self, seconds):
+        self.seconds = seconds
+
+    def __enter__(self):
+        import signal, threading
+        self.active = threading.current_thread() is threading.main_thread()
+        if self.active:
+            def handler(signum, frame):
+                raise Hang(f"no return within {self.seconds} s")
+            self.old = signal.signal(signal.SIGALRM, handler)
+            signal.setitimer(signal.ITIMER_REAL, self.seconds)
+        return self
+
+    def __exit__(self, *a):
+        import signal
+        if self.active:
+            signal.setitimer(signal.ITIMER_REAL, 0)
+            signal.signal(signal.SIGALRM, self.old)
+        return False
